@@ -1,360 +1,866 @@
-(* Proofs about BatchFut.v: a batch and its items as futures (C10). *)
+(* Proofs about BatchFut.v: a batch and its items as futures, with callbacks that complete OTHER
+   futures of the case from inside a notification (C10). *)
 From Asynq Require Import Base Futures BatchFut proofs.FuturesProofs.
 
-(* the callback records produced by notifying the subscribers [l] of future [t] with outcome [oc] *)
-Definition tnotes (t : Z) (l : list sub) (oc : outcome) : list blogrec :=
-  map (fun sb => (t, fst sb, oc)) l.
+(* the callback records of future [t] *)
+Definition plog (t : nat) (l : list blogrec) : list blogrec :=
+  filter (fun r => Z.eqb (fst (fst r)) (Z.of_nat t)) l.
 
-Definition icomputed (it : item) : bool := match iout it with Some _ => true | None => false end.
+(* the records produced by notifying the subscribers [l] of future [t] with outcome [oc] *)
+Definition tnotes (t : nat) (l : list sub) (oc : outcome) : list blogrec :=
+  map (fun sb => (Z.of_nat t, fst sb, oc)) l.
 
-(* ---- one item ---- *)
+Definition allcomp (s : bstate) : Prop :=
+  forall i, (i < length (bitems s))%nat -> item_out s i <> None.
 
-(* completing an item: outcome stored, each of ITS subscribers called once with that outcome, its
-   subscription list is what they left behind *)
-Lemma icomplete_spec t it o :
-  iout (fst (icomplete t it o)) = Some o /\
-  snd (icomplete t it o) = tnotes t (isubs it) o /\
-  isubs (fst (icomplete t it o)) = after_notify (isubs it).
-Proof. cbn. unfold tnotes. rewrite notify_snapshot, map_map. auto. Qed.
+(* once the batch is computed every item is *)
+Definition all_items_computed (s : bstate) : Prop := bout s = None \/ allcomp s.
 
-(* single assignment for an item: a set on a computed item raises FutureIsAlreadyComputed, changes
-   nothing and calls nobody *)
-Lemma iset_computed t it oc o : iout it = Some oc -> iset t it o = (it, [], RRaise E_ALREADY).
-Proof. intros H. unfold iset. now rewrite H. Qed.
+(* ---- what an observer of ONE future [u] can tell between two states ---- *)
+Definition same_fut (s s' : bstate) (u : nat) : Prop :=
+  fout s' u = fout s u /\ plog u (blog s') = plog u (blog s) /\ fsubs s' u = fsubs s u.
 
-Lemma iset_uncomputed t it o : iout it = None ->
-  iset t it o = (fst (icomplete t it o), tnotes t (isubs it) o, RUnit).
-Proof.
-  intros H. unfold iset. rewrite H. cbn. unfold tnotes. now rewrite notify_snapshot, map_map.
-Qed.
-
-(* the records of what the body does to one item: notified exactly when it was uncomputed and the body
-   sets it, with the FIRST outcome the body sets; later sets of the same item raise and end the body *)
-Definition body_notes (t : Z) (it : item) (os : list outcome) : list blogrec :=
-  match iout it, os with
-  | None, o :: _ => tnotes t (isubs it) o
-  | _, _ => []
+(* C10 for future [u] between [s] and [s']: a computed future keeps its outcome, is not notified
+   again and keeps its subscription list; an uncomputed one is either untouched, or was completed
+   ONCE: it holds an outcome [oc] and exactly the subscribers it had in [s] were called, each once,
+   in order, each seeing [oc] *)
+Definition ext_at (s s' : bstate) (u : nat) : Prop :=
+  match fout s u with
+  | Some _ => same_fut s s' u
+  | None => same_fut s s' u \/
+            exists oc, fout s' u = Some oc /\ plog u (blog s') = plog u (blog s) ++ tnotes u (fsubs s u) oc
   end.
 
-Definition body_out (it : item) (os : list outcome) : option outcome :=
-  match iout it, os with
-  | None, o :: _ => Some o
-  | x, _ => x
-  end.
+Definition frame (s s' : bstate) : Prop :=
+  length (bitems s') = length (bitems s) /\ bruns s' = bruns s.
 
-Lemma iset_all_spec t os : forall it,
-  let '(it', lg, rs, f) := iset_all t it os in
-  lg = body_notes t it os /\ iout it' = body_out it os /\
-  (f = None -> length os <= 1 /\ (iout it = None \/ os = []))%nat.
+Definition ext (s s' : bstate) : Prop := frame s s' /\ forall u, ext_at s s' u.
+
+(* the same while future [t] (computed) is being notified: its own log and list are its business *)
+Definition ext_but (t : nat) (s s' : bstate) : Prop :=
+  frame s s' /\ fout s' t = fout s t /\ forall u, u <> t -> ext_at s s' u.
+
+Lemma frame_refl s : frame s s.
+Proof. split; reflexivity. Qed.
+Lemma frame_trans a b c : frame a b -> frame b c -> frame a c.
+Proof. intros (A & B) (C & D). split; congruence. Qed.
+#[global] Hint Resolve frame_refl : core.
+
+Lemma same_fut_refl s u : same_fut s s u.
+Proof. repeat split. Qed.
+
+Lemma same_fut_trans a b c u : same_fut a b u -> same_fut b c u -> same_fut a c u.
+Proof. intros (A1 & A2 & A3) (B1 & B2 & B3). repeat split; congruence. Qed.
+
+Lemma ext_at_refl s u : ext_at s s u.
+Proof. unfold ext_at. destruct (fout s u); [|left]; apply same_fut_refl. Qed.
+
+Lemma ext_at_trans a b c u : ext_at a b u -> ext_at b c u -> ext_at a c u.
 Proof.
-  destruct os as [|o os]; intros it; cbn.
-  - unfold body_notes, body_out. destruct (iout it); repeat split; auto with arith.
-  - unfold body_notes, body_out. destruct (iout it) as [oc|] eqn:E.
-    + rewrite (iset_computed t it oc o E). repeat split; auto; discriminate.
-    + rewrite (iset_uncomputed t it o E).
-      destruct os as [|o2 os]; cbn.
-      * rewrite app_nil_r. repeat split; auto.
-      * rewrite app_nil_r. repeat split; auto; discriminate.
+  unfold ext_at. intros H1 H2. destruct (fout a u) eqn:Ea.
+  - destruct H1 as (A1 & A2 & A3). rewrite A1, Ea in H2. eapply same_fut_trans; [|exact H2].
+    repeat split; auto; congruence.
+  - destruct H1 as [(A1 & A2 & A3) | (oc & A1 & A2)].
+    + rewrite A1, Ea in H2. destruct H2 as [S2 | (oc & B1 & B2)].
+      * left. eapply same_fut_trans; [|exact S2]. repeat split; auto; congruence.
+      * right. exists oc. split; auto. rewrite B2, A2, A3. reflexivity.
+    + rewrite A1 in H2. destruct H2 as (B1 & B2 & B3). right. exists oc. split; [congruence|].
+      rewrite B2, A2. reflexivity.
 Qed.
 
-(* ---- BatchBase._computed's item loop ---- *)
+Lemma ext_refl s : ext s s.
+Proof. split; auto. intros u. apply ext_at_refl. Qed.
 
-Fixpoint fill_notes (t : Z) (l : list item) (e : exn) : list blogrec :=
-  match l with
-  | [] => []
-  | it :: r => (if icomputed it then [] else tnotes t (isubs it) (Err e)) ++ fill_notes (t + 1) r e
-  end.
+Lemma ext_len s s' : ext s s' -> length (bitems s') = length (bitems s).
+Proof. intros ((L & _) & _). exact L. Qed.
 
-(* the loop completes exactly the items that are not computed - each of their subscribers is called
-   once with that error -, leaves computed items as they are, and afterwards every item is computed *)
-Lemma fill_spec e l : forall t,
-  snd (fill t l e) = fill_notes t l e /\
-  forallb icomputed (fst (fill t l e)) = true /\
-  map iout (fst (fill t l e)) = map (fun it => match iout it with Some o => Some o | None => Some (Err e) end) l.
+Lemma ext_trans a b c : ext a b -> ext b c -> ext a c.
 Proof.
-  induction l as [|it r IH]; intros t; cbn; auto.
-  destruct (IH (t + 1)) as (I1 & I2 & I3). destruct (fill (t + 1) r e) as [r' lg]. cbn in *.
-  unfold icomputed at 1. destruct (iout it) eqn:E; cbn.
-  - unfold icomputed at 1. rewrite E. cbn. subst. repeat split; auto. now rewrite I3.
-  - unfold tnotes. rewrite notify_snapshot, map_map. subst. repeat split; auto. now rewrite I3.
+  intros (L1 & H1) (L2 & H2). split; [eapply frame_trans; eauto|]. intros u. eapply ext_at_trans; eauto.
 Qed.
 
-(* ---- completion of the batch ---- *)
+Lemma ext_but_refl t s : ext_but t s s.
+Proof. split; auto. split; auto. intros u _. apply ext_at_refl. Qed.
 
-(* set_value / set_error on an uncomputed batch: the outcome is stored; the callback log grows by the
-   records of the item loop and then - LAST - by exactly one record per subscriber of the batch, each
-   with the batch's outcome; afterwards every item is computed *)
-Lemma bcomplete_spec s o :
-  let s' := bcomplete s o in
-  bout s' = Some o /\
-  blog s' = blog s ++ fill_notes 1 (bitems s) (fill_error o) ++ tnotes 0 (bsubs s) o /\
-  bsubs s' = after_notify (bsubs s) /\
-  forallb icomputed (bitems s') = true /\ bruns s' = bruns s /\ binner s' = binner s.
+Lemma ext_but_trans t a b c : ext_but t a b -> ext_but t b c -> ext_but t a c.
 Proof.
-  unfold bcomplete. destruct (fill_spec (fill_error o) (bitems s) 1) as (F1 & F2 & _).
-  destruct (fill 1 (bitems s) (fill_error o)) as [its lg]. cbn in *. subst.
-  unfold tnotes. rewrite notify_snapshot, map_map. repeat split; auto.
+  intros (L1 & F1 & H1) (L2 & F2 & H2). split; [eapply frame_trans; eauto|]. split; [congruence|].
+  intros u N. eapply ext_at_trans; eauto.
 Qed.
 
-Lemma bcompute_spec s :
-  let s' := bcompute s in
-  (exists o, bout s' = Some o) /\ forallb icomputed (bitems s') = true /\ bruns s' = S (bruns s) /\
-  exists mid o, blog s' = blog s ++ mid ++ tnotes 0 (bsubs s) o /\ bout s' = Some o /\
-                bsubs s' = after_notify (bsubs s).
+Lemma ext_ext_but t s s' oc : fout s t = Some oc -> ext s s' -> ext_but t s s'.
 Proof.
-  unfold bcompute. destruct (flush_body 1 (bitems s)) as [[[its lg] rs] f].
-  match goal with |- context [bcomplete ?a ?b] =>
-    generalize b; intros o; destruct (bcomplete_spec a o) as (C1 & C2 & C3 & C4 & C5 & _) end.
-  cbn in *. repeat split; eauto.
-  exists (lg ++ fill_notes 1 its (fill_error o)), o.
-  rewrite C2, <- !app_assoc. auto.
+  intros F (L & H). split; auto. split; auto.
+  specialize (H t). unfold ext_at in H. rewrite F in H. destruct H as (H & _). exact H.
 Qed.
 
-(* ---- operations ---- *)
+Lemma ext_computed s s' u oc : ext s s' -> fout s u = Some oc -> fout s' u = Some oc.
+Proof. intros (_ & H) F. specialize (H u). unfold ext_at in H. rewrite F in H. destruct H as (H & _). congruence. Qed.
 
-(* single assignment for the batch *)
-Lemma batch_single_assignment s oc : bout s = Some oc ->
-  (forall v, bstep s (BOn 0 (OSetValue v)) = (s, RRaise E_ALREADY)) /\
-  (forall e, bstep s (BOn 0 (OSetError e)) = (s, RRaise E_ALREADY)) /\
-  bstep s BFlush = (s, RRaise E_BATCHING) /\ bstep s BCancel = (s, RUnit).
-Proof. intros H. repeat split; intros; cbn; now rewrite H. Qed.
-
-Definition breport (o : op) (oc : outcome) : res :=
-  match o with
-  | OValue | OCall => report_value oc
-  | OError => report_error oc
-  | OIsComputed => RBool true
-  | _ => RUnit
-  end.
-
-(* a computed batch: no operation changes its outcome, any item, the log or the flush count; reads of
-   the batch report its outcome *)
-Lemma bstep_computed s oc o : bout s = Some oc ->
-  let '(s', r) := bstep s o in
-  bout s' = Some oc /\ bitems s' = bitems s /\ blog s' = blog s /\ bruns s' = bruns s /\
-  (forall x, o = BOn 0 x -> is_read x = true -> r = breport x oc).
+Lemma ext_allcomp s s' : ext s s' -> allcomp s -> allcomp s'.
 Proof.
-  intros H. destruct o as [[|i] x| |]; cbn.
-  - destruct x; cbn; unfold bread; rewrite ?H; cbn; repeat split; auto;
-      intros y E; inversion E; subst; cbn; auto; discriminate.
-  - destruct x; cbn; unfold iread; try destruct (item_out s i); rewrite ?H; cbn; repeat split; auto;
-      intros y E; inversion E.
-  - rewrite H. repeat split; auto. intros y E; inversion E.
-  - rewrite H. repeat split; auto. intros y E; inversion E.
+  intros E A i Hi. pose proof (ext_len _ _ E) as L. destruct E as (_ & H). rewrite L in Hi. specialize (A i Hi).
+  destruct (item_out s i) as [oc|] eqn:F; [|congruence].
+  assert (X : fout s' (S i) = Some oc).
+  { specialize (H (S i)). unfold ext_at in H. cbn [fout] in H. rewrite F in H. destruct H as (H & _). cbn in *. congruence. }
+  cbn in X. congruence.
 Qed.
 
-(* invariant: once the batch is computed every item is *)
-Definition all_items_computed (s : bstate) : Prop :=
-  bout s <> None -> forallb icomputed (bitems s) = true.
+(* ---- lists, logs ---- *)
+Lemma plog_app t a b : plog t (a ++ b) = plog t a ++ plog t b.
+Proof. apply filter_app. Qed.
 
-Lemma binit_inv its fin : all_items_computed (binit its fin).
-Proof. intros H. now contradiction H. Qed.
+Lemma plog_one_same t id o : plog t [(Z.of_nat t, id, o)] = [(Z.of_nat t, id, o)].
+Proof. unfold plog. cbn. now rewrite Z.eqb_refl. Qed.
 
-(* T4 for the batch as a future: an operation that leaves the batch uncomputed calls nobody at all
-   (items are only ever completed inside the batch's completion); the operation that completes it
-   appends records of item subscribers and then exactly one record per subscriber of the batch
-   registered when the operation began, carrying the batch's outcome; the flush body ran at most
-   once; afterwards all items are computed *)
-Lemma bstep_uncomputed s o : bout s = None ->
-  let s' := fst (bstep s o) in
-  (bout s' = None /\ blog s' = blog s /\ bitems s' = bitems s /\ bruns s' = bruns s) \/
-  (exists mid oc, bout s' = Some oc /\ blog s' = blog s ++ mid ++ tnotes 0 (bsubs s) oc /\
-                  bsubs s' = after_notify (bsubs s) /\
-                  forallb icomputed (bitems s') = true /\ (bruns s' <= S (bruns s))%nat).
+Lemma plog_one_other t u id o : u <> t -> plog u [(Z.of_nat t, id, o)] = [].
 Proof.
-  intros H.
-  assert (CP : forall s', s' = bcompute s -> exists mid oc, bout s' = Some oc /\
-             blog s' = blog s ++ mid ++ tnotes 0 (bsubs s) oc /\ bsubs s' = after_notify (bsubs s) /\
-             forallb icomputed (bitems s') = true /\ (bruns s' <= S (bruns s))%nat).
-  { intros s' ->. destruct (bcompute_spec s) as (_ & A & R & mid & oc & L & O & S').
-    exists mid, oc. rewrite R. auto. }
-  assert (CC : forall o, exists mid oc, bout (bcomplete s o) = Some oc /\
-             blog (bcomplete s o) = blog s ++ mid ++ tnotes 0 (bsubs s) oc /\
-             bsubs (bcomplete s o) = after_notify (bsubs s) /\
-             forallb icomputed (bitems (bcomplete s o)) = true /\ (bruns (bcomplete s o) <= S (bruns s))%nat).
-  { intros oc. destruct (bcomplete_spec s oc) as (C1 & C2 & C3 & C4 & C5 & _).
-    eexists _, oc. rewrite C5. repeat split; eauto. }
-  destruct o as [[|i] x| |]; cbn.
-  - destruct x; cbn; unfold bread; rewrite ?H; cbn; auto; right; auto.
-  - destruct x; cbn; unfold iread; try destruct (item_out s i); rewrite ?H; cbn; auto; right; auto.
-  - rewrite H. right. cbn. auto.
-  - rewrite H. right. cbn. auto.
+  intros N. unfold plog. cbn. destruct (Z.eqb (Z.of_nat t) (Z.of_nat u)) eqn:E; auto.
+  apply Z.eqb_eq, Nat2Z.inj in E. congruence.
+Qed.
+
+Lemma nth_upd_same i f : forall l x, nth_error l i = Some x -> nth_error (upd_nth i f l) i = Some (f x).
+Proof. induction i; intros [|y r] x H; cbn in *; try discriminate; [now inversion H|auto]. Qed.
+
+Lemma nth_upd_none i f : forall l, nth_error l i = None -> upd_nth i f l = l.
+Proof. induction i; intros [|y r] H; cbn in *; try discriminate; auto. now rewrite IHi. Qed.
+
+Lemma nth_upd_other i j f : i <> j -> forall l, nth_error (upd_nth i f l) j = nth_error l j.
+Proof.
+  revert j. induction i; intros [|j] N [|y r]; cbn; auto; try congruence; try (apply IHi; congruence).
+Qed.
+
+Lemma length_upd i f : forall l, length (upd_nth i f l) = length l.
+Proof. induction i; intros [|y r]; cbn; auto. Qed.
+
+Lemma nth_error_lt {A} (l : list A) i : (i < length l)%nat -> exists x, nth_error l i = Some x.
+Proof. intros H. destruct (nth_error l i) eqn:E; eauto. apply nth_error_None in E. lia. Qed.
+
+(* ---- the primitive state changes, seen from each future ---- *)
+Lemma add_log_same s t u id o : u <> t -> same_fut s (add_log s (Z.of_nat t, id, o)) u.
+Proof.
+  intros N. repeat split; try (destruct u; reflexivity).
+  unfold add_log; cbn [blog]. rewrite plog_app, plog_one_other, app_nil_r; auto.
+Qed.
+
+Lemma add_log_self s t id o :
+  fout (add_log s (Z.of_nat t, id, o)) t = fout s t /\
+  plog t (blog (add_log s (Z.of_nat t, id, o))) = plog t (blog s) ++ [(Z.of_nat t, id, o)] /\
+  fsubs (add_log s (Z.of_nat t, id, o)) t = fsubs s t /\
+  length (bitems (add_log s (Z.of_nat t, id, o))) = length (bitems s).
+Proof. repeat split; try (destruct t; reflexivity). unfold add_log; cbn [blog]. now rewrite plog_app, plog_one_same. Qed.
+
+Lemma set_fsubs_other s t l u : u <> t -> same_fut s (set_fsubs s t l) u.
+Proof.
+  intros N. destruct t as [|i]; [destruct u as [|j]; [congruence|]; repeat split|].
+  destruct u as [|j]; [repeat split|].
+  assert (i <> j) by congruence.
+  repeat split; cbn; unfold item_out; cbn; now rewrite nth_upd_other.
+Qed.
+
+Lemma set_fsubs_self s t l :
+  fout (set_fsubs s t l) t = fout s t /\ blog (set_fsubs s t l) = blog s /\
+  length (bitems (set_fsubs s t l)) = length (bitems s).
+Proof.
+  destruct t as [|i]; [repeat split|]. repeat split; [|apply length_upd].
+  cbn. unfold item_out. cbn. destruct (nth_error (bitems s) i) eqn:E.
+  - now rewrite (nth_upd_same _ _ _ _ E).
+  - now rewrite nth_upd_none, E.
+Qed.
+
+Lemma store_other s t o u : u <> t -> same_fut s (store s t o) u.
+Proof.
+  intros N. destruct t as [|i]; [destruct u as [|j]; [congruence|]; repeat split|].
+  destruct u as [|j]; [repeat split|].
+  assert (i <> j) by congruence.
+  repeat split; cbn; unfold item_out; cbn; now rewrite nth_upd_other.
+Qed.
+
+Lemma store_self s t o : fexists s t = true ->
+  fout (store s t o) t = Some o /\ blog (store s t o) = blog s /\ fsubs (store s t o) t = fsubs s t /\
+  length (bitems (store s t o)) = length (bitems s).
+Proof.
+  intros X. destruct t as [|i]; [repeat split|]. cbn in X. apply Nat.ltb_lt in X.
+  destruct (nth_error_lt _ _ X) as (it & E).
+  repeat split; [| |apply length_upd]; cbn; unfold item_out; cbn; rewrite ?(nth_upd_same _ _ _ _ E), ?E; reflexivity.
+Qed.
+
+Lemma store_frame s t o : frame s (store s t o).
+Proof. destruct t; split; cbn; auto. apply length_upd. Qed.
+
+Lemma push_binner_same s r u : same_fut s (push_binner s r) u.
+Proof. repeat split; destruct u; reflexivity. Qed.
+
+Lemma same_ext_at s s' u : same_fut s s' u -> ext_at s s' u.
+Proof. intros H. unfold ext_at. destruct (fout s u); auto. Qed.
+
+(* ---- one level, for a callback-set [rec] that respects C10 ---- *)
+Definition wb (rec : bstate -> nat -> outcome -> bstate * res) : Prop :=
+  forall s t o, ext s (fst (rec s t o)) /\ (all_items_computed s -> all_items_computed (fst (rec s t o))).
+
+Lemma wb_no_rec : wb no_rec.
+Proof. intros s t o. split; [apply ext_refl|auto]. Qed.
+
+Lemma inv_by_same s s' :
+  bout s' = bout s -> length (bitems s') = length (bitems s) -> (forall i, item_out s' i = item_out s i) ->
+  all_items_computed s -> all_items_computed s'.
+Proof.
+  intros B L I [H|H]; [left; congruence|right]. intros i Hi. rewrite I. apply H. congruence.
+Qed.
+
+Lemma set_fsubs_frame s t l : frame s (set_fsubs s t l).
+Proof. destruct t; split; cbn; auto. apply length_upd. Qed.
+
+Lemma set_fsubs_step s t l :
+  ext_but t s (set_fsubs s t l) /\ plog t (blog (set_fsubs s t l)) = plog t (blog s) /\
+  (all_items_computed s -> all_items_computed (set_fsubs s t l)).
+Proof.
+  destruct (set_fsubs_self s t l) as (A1 & A2 & A3). split; [|split].
+  - split; [apply set_fsubs_frame|]. split; auto. intros u N. apply same_ext_at, set_fsubs_other; auto.
+  - congruence.
+  - apply inv_by_same; auto. { destruct t; reflexivity. }
+    intros i. destruct (Nat.eq_dec (S i) t) as [<-|N]; [exact A1|].
+    destruct (set_fsubs_other s t l (S i) N) as (X & _). exact X.
+Qed.
+
+Lemma add_log_step s t id o :
+  ext_but t s (add_log s (Z.of_nat t, id, o)) /\
+  (all_items_computed s -> all_items_computed (add_log s (Z.of_nat t, id, o))).
+Proof.
+  destruct (add_log_self s t id o) as (A1 & A2 & A3 & A4). split.
+  - split; [split; auto|]. split; auto. intros u N. apply same_ext_at, add_log_same. exact N.
+  - apply inv_by_same; auto.
+Qed.
+
+Lemma no_step t s :
+  ext_but t s s /\ plog t (blog s) = plog t (blog s) /\ (all_items_computed s -> all_items_computed s).
+Proof. split; [apply ext_but_refl|auto]. Qed.
+
+Section LevelProofs.
+  Variable rec : bstate -> nat -> outcome -> bstate * res.
+  Hypothesis W : wb rec.
+
+  (* one callback of future t (computed, being notified) *)
+  Lemma run_bcb_spec t k : forall s oc0, fout s t = Some oc0 ->
+    let s' := fst (run_bcb rec t k s) in
+    ext_but t s s' /\ plog t (blog s') = plog t (blog s) /\
+    (all_items_computed s -> all_items_computed s').
+  Proof.
+    induction k as [|c|x|id k IH|a IHa b IHb|x o g]; intros s oc0 F; cbn.
+    - apply no_step.
+    - apply no_step.
+    - destruct (remove_first x (fsubs s t)) as [l|]; cbn; [apply set_fsubs_step|apply no_step].
+    - apply set_fsubs_step.
+    - specialize (IHa s oc0 F). destruct (run_bcb rec t a s) as [s1 r] eqn:Ea. cbn in IHa.
+      destruct IHa as (E1 & P1 & I1). destruct r; cbn; [split; [|split]; auto|].
+      assert (F1 : fout s1 t = Some oc0) by (destruct E1 as (_ & X & _); congruence).
+      specialize (IHb s1 oc0 F1). destruct (run_bcb rec t b s1) as [s2 r2]. cbn in *.
+      destruct IHb as (E2 & P2 & I2). split; [eapply ext_but_trans; eauto|]. split; [congruence|auto].
+    - destruct (fout s (Z.to_nat x)) eqn:Fx; cbn; [apply no_step|].
+      destruct (W s (Z.to_nat x) o) as (E & I). destruct (rec s (Z.to_nat x) o) as [s' r]. cbn in *.
+      split; [eapply ext_ext_but; eauto|]. split; auto.
+      destruct E as (_ & H). specialize (H t). unfold ext_at in H. rewrite F in H. apply H.
+  Qed.
+
+  Lemma bnotify_spec t o snap : forall s oc0, fout s t = Some oc0 ->
+    let s' := bnotify rec t o snap s in
+    ext_but t s s' /\ plog t (blog s') = plog t (blog s) ++ tnotes t snap o /\
+    (all_items_computed s -> all_items_computed s').
+  Proof.
+    induction snap as [|sb rest IH]; intros s oc0 F; cbn.
+    - rewrite app_nil_r. apply no_step.
+    - destruct (add_log_self s t (fst sb) o) as (A1 & A2 & A3 & A4).
+      destruct (add_log_step s t (fst sb) o) as (E1 & I1).
+      set (s1 := add_log s (Z.of_nat t, fst sb, o)) in *.
+      assert (F1 : fout s1 t = Some oc0) by congruence.
+      destruct (run_bcb_spec t (snd sb) s1 oc0 F1) as (E2 & P2 & I2).
+      set (s2 := fst (run_bcb rec t (snd sb) s1)) in *.
+      assert (F2 : fout s2 t = Some oc0) by (destruct E2 as (_ & X & _); congruence).
+      destruct (IH s2 oc0 F2) as (E3 & P3 & I3). split; [|split].
+      + eapply ext_but_trans; [exact E1|]. eapply ext_but_trans; eauto.
+      + rewrite P3, P2, A2, <- app_assoc. reflexivity.
+      + auto.
+  Qed.
+
+  (* storing an outcome on an existing uncomputed future, then notifying it *)
+  Lemma complete_spec s t o s2 :
+    fout s t = None -> fexists s t = true ->
+    ext (store s t o) s2 -> fout s2 t = Some o ->
+    let s' := bnotify rec t o (fsubs s2 t) s2 in
+    ext s s' /\ fout s' t = Some o.
+  Proof.
+    intros F X E12 F2. destruct (store_self s t o X) as (S1 & S2 & S3 & S4).
+    destruct (bnotify_spec t o (fsubs s2 t) s2 o F2) as (E3 & P3 & _). cbn.
+    assert (Ft : fout (bnotify rec t o (fsubs s2 t) s2) t = Some o)
+      by (destruct E3 as (_ & X3 & _); congruence).
+    split; auto. split.
+    - destruct E3 as (L3 & _). destruct E12 as (L2 & _).
+      eapply frame_trans; [apply store_frame|]. eapply frame_trans; eauto.
+    - intros u. destruct (Nat.eq_dec u t) as [->|N].
+      + unfold ext_at. rewrite F. right. exists o. split; auto.
+        destruct E12 as (_ & H). specialize (H t). unfold ext_at in H. rewrite S1 in H.
+        destruct H as (_ & H2 & H3). rewrite P3, H2, H3, S2, S3. reflexivity.
+      + eapply ext_at_trans; [apply same_ext_at, store_other; exact N|].
+        eapply ext_at_trans; [destruct E12 as (_ & H); apply H|].
+        destruct E3 as (_ & _ & H). apply H. exact N.
+  Qed.
+
+  Lemma iset_spec s i o :
+    let s' := fst (iset rec s i o) in
+    ext s s' /\
+    (all_items_computed s -> all_items_computed s') /\
+    (item_out s i = None -> (i < length (bitems s))%nat -> item_out s' i = Some o /\ snd (iset rec s i o) = RUnit) /\
+    (forall oc, item_out s i = Some oc -> iset rec s i o = (s, RRaise E_ALREADY)).
+  Proof.
+    unfold iset. destruct (item_out s i) as [oc|] eqn:F; cbn [fst snd].
+    - split; [apply ext_refl|]. split; [auto|]. split; [discriminate|auto].
+    - destruct (Nat.ltb i (length (bitems s))) eqn:X; cbn [fst snd].
+      2: { apply Nat.ltb_ge in X. split; [apply ext_refl|]. split; [auto|]. split; [intros; lia|discriminate]. }
+      assert (X' : fexists s (S i) = true) by exact X.
+      destruct (store_self s (S i) o X') as (S1 & S2 & S3 & S4).
+      destruct (complete_spec s (S i) o (store s (S i) o) F X' (ext_refl _) S1) as (E & Fo).
+      split; [exact E|]. split; [|split; [auto|discriminate]].
+      intros I.
+      destruct (bnotify_spec (S i) o (fsubs (store s (S i) o) (S i)) (store s (S i) o) o S1) as (_ & _ & I3).
+      apply I3. destruct I as [B|A]; [left; exact B|right].
+      intros j Hj. rewrite S4 in Hj. destruct (Nat.eq_dec j i) as [->|N].
+      + cbn [fout] in S1. congruence.
+      + destruct (store_other s (S i) o (S j)) as (Y & _); [congruence|]. cbn [fout] in Y. rewrite Y. auto.
+  Qed.
+
+  Lemma cancel_sets_spec l : forall s, ext s (cancel_sets rec l s).
+  Proof.
+    induction l as [|[i o] r IH]; intros s; cbn; [apply ext_refl|].
+    eapply ext_trans; [|apply IH]. destruct (item_out s i); [apply ext_refl|apply iset_spec].
+  Qed.
+
+  (* the item loop: monotone, and every item of its range is computed afterwards *)
+  Lemma fill_loop_spec e n : forall i s,
+    (i + n <= length (bitems s))%nat ->
+    let s' := fill_loop rec i n e s in
+    ext s s' /\ forall j, (i <= j < i + n)%nat -> item_out s' j <> None.
+  Proof.
+    induction n as [|n IH]; intros i s H; cbn.
+    - split; [apply ext_refl|]. intros j Hj. lia.
+    - set (s1 := match item_out s i with Some _ => s | None => fst (iset rec s i (Err e)) end).
+      assert (E1 : ext s s1) by (unfold s1; destruct (item_out s i); [apply ext_refl|apply iset_spec]).
+      assert (C1 : item_out s1 i <> None).
+      { unfold s1. destruct (item_out s i) eqn:F; [congruence|].
+        destruct (iset_spec s i (Err e)) as (_ & _ & X & _). destruct (X F) as (Y & _); [lia|]. congruence. }
+      assert (L1 : length (bitems s1) = length (bitems s)) by (apply ext_len; exact E1).
+      destruct (IH (S i) s1) as (E2 & C2); [lia|]. split; [eapply ext_trans; eauto|].
+      intros j Hj. destruct (Nat.eq_dec j i) as [->|N]; [|apply C2; lia].
+      destruct (item_out s1 i) as [oc|] eqn:F; [|congruence].
+      assert (X : fout (fill_loop rec (S i) n e s1) (S i) = Some oc) by (eapply ext_computed; eauto).
+      cbn [fout] in X. congruence.
+  Qed.
+
+  (* set_value / set_error on the batch *)
+  Lemma bset0_spec s o :
+    let s' := fst (bset0 rec s o) in
+    ext s s' /\ (all_items_computed s -> all_items_computed s') /\
+    (bout s = None -> bout s' = Some o /\ allcomp s' /\ snd (bset0 rec s o) = RUnit) /\
+    (forall oc, bout s = Some oc -> bset0 rec s o = (s, RRaise E_ALREADY)).
+  Proof.
+    unfold bset0. destruct (bout s) as [oc|] eqn:F; cbn [fst snd].
+    - split; [apply ext_refl|]. split; [auto|]. split; [discriminate|auto].
+    - set (s1 := store s 0 o).
+      set (s2 := match o with Err _ => cancel_sets rec (bcancel s1) s1 | Ok _ => s1 end).
+      set (s3 := fill_loop rec 0 (length (bitems s2)) (fill_error o) s2).
+      assert (E12 : ext s1 s2) by (unfold s2; destruct o; [apply ext_refl|apply cancel_sets_spec]).
+      destruct (fill_loop_spec (fill_error o) (length (bitems s2)) 0 s2) as (E23 & C3); [lia|].
+      fold s3 in E23, C3.
+      assert (E13 : ext s1 s3) by (eapply ext_trans; eauto).
+      assert (F1 : fout s1 0 = Some o) by reflexivity.
+      assert (F3 : fout s3 0 = Some o) by (eapply ext_computed; eauto).
+      destruct (complete_spec s 0 o s3 F eq_refl E13 F3) as (E & Fo).
+      assert (A3 : allcomp s3).
+      { intros j Hj. apply C3. rewrite (ext_len _ _ E23) in Hj. lia. }
+      assert (A : allcomp (bnotify rec 0 o (fsubs s3 0) s3)).
+      { destruct (bnotify_spec 0 o (fsubs s3 0) s3 o F3) as (_ & _ & I).
+        destruct (I (or_intror A3)) as [B|A]; auto. cbn [fout] in Fo. congruence. }
+      split; [exact E|]. split; [intros _; right; exact A|]. split; [|discriminate].
+      intros _. split; [exact Fo|]. split; [exact A|reflexivity].
+  Qed.
+
+  Lemma bset_level_wb : wb (bset_level rec).
+  Proof.
+    intros s [|i] o; cbn.
+    - destruct (bset0_spec s o) as (E & I & _). auto.
+    - destruct (iset_spec s i o) as (E & I & _). auto.
+  Qed.
+
+  (* the flush body *)
+  Lemma body_item_spec i os : forall s,
+    let s' := fst (body_item rec i os s) in
+    ext s s' /\ (all_items_computed s -> all_items_computed s').
+  Proof.
+    induction os as [|o r IH]; intros s; cbn [body_item]; [split; [apply ext_refl|auto]|].
+    destruct (iset_spec s i o) as (E & I & _).
+    destruct (iset rec s i o) as [s1 x]. cbn [fst snd] in *.
+    assert (E1 : ext s (push_binner s1 x)).
+    { eapply ext_trans; [exact E|]. split; [split; reflexivity|]. intros u. apply same_ext_at, push_binner_same. }
+    assert (I1 : all_items_computed s -> all_items_computed (push_binner s1 x)) by (intros H; apply I in H; exact H).
+    assert (K : forall st, st = push_binner s1 x ->
+              ext s (fst (body_item rec i r st)) /\
+              (all_items_computed s -> all_items_computed (fst (body_item rec i r st)))).
+    { intros st ->. destruct (IH (push_binner s1 x)) as (E2 & I2). split; [eapply ext_trans; eauto|auto]. }
+    destruct x; cbn [fst]; auto; apply K; reflexivity.
+  Qed.
+
+  Lemma flush_body_spec acts : forall i s,
+    let s' := fst (flush_body rec i acts s) in
+    ext s s' /\ (all_items_computed s -> all_items_computed s').
+  Proof.
+    induction acts as [|os r IH]; intros i s; cbn [flush_body]; [split; [apply ext_refl|auto]|].
+    destruct (body_item_spec i os s) as (E & I). destruct (body_item rec i os s) as [s1 f]. cbn [fst] in *.
+    destruct f; cbn [fst]; auto. destruct (IH (S i) s1) as (E2 & I2). split; [eapply ext_trans; eauto|auto].
+  Qed.
+
+  (* BatchBase._compute: afterwards the batch is computed and every item is; every future: C10 *)
+  Lemma bcompute_spec s : all_items_computed s ->
+    let s' := bcompute rec s in
+    (forall u, ext_at s s' u) /\ bout s' <> None /\ allcomp s' /\ bruns s' = S (bruns s) /\
+    length (bitems s') = length (bitems s).
+  Proof.
+    intros I. unfold bcompute.
+    set (s0 := bmk (bitems s) (bfin s) (bcancel s) (bout s) (S (bruns s)) (bsubs s) (blog s) (binner s)).
+    assert (E0 : forall u, ext_at s s0 u) by (intros u; apply same_ext_at; repeat split; destruct u; reflexivity).
+    assert (I0 : all_items_computed s0) by exact I.
+    destruct (flush_body_spec (map iact (bitems s0)) 0 s0) as (E1 & I1).
+    destruct (flush_body rec 0 (map iact (bitems s0)) s0) as [s1 f] eqn:Fb. cbn [fst] in E1, I1.
+    match goal with |- context [bset0 rec s1 ?o] => set (oo := o) end.
+    destruct (bset0_spec s1 oo) as (E2 & I2 & N2 & C2).
+    assert (E : ext s0 (fst (bset0 rec s1 oo))) by (eapply ext_trans; eauto).
+    split; [intros u; eapply ext_at_trans; [apply E0|apply E]|].
+    destruct E as ((L & R) & _). split; [|split; [|split; [exact R|exact L]]].
+    - destruct (bout s1) eqn:B1.
+      + rewrite (C2 _ eq_refl). cbn [fst]. congruence.
+      + destruct (N2 eq_refl) as (X & _). congruence.
+    - destruct (bout s1) eqn:B1.
+      + rewrite (C2 _ eq_refl). cbn [fst]. destruct (I1 I0) as [X|X]; [congruence|exact X].
+      + destruct (N2 eq_refl) as (_ & X & _). exact X.
+  Qed.
+End LevelProofs.
+
+(* ---- every nesting depth respects C10 ---- *)
+Lemma bset_at_wb d : wb (bset_at d).
+Proof. induction d; cbn; apply bset_level_wb; [apply wb_no_rec|exact IHd]. Qed.
+
+(* single assignment, for the batch and for every item, at every depth (also from inside callbacks):
+   a set on a computed future raises FutureIsAlreadyComputed, changes nothing, calls nobody *)
+Lemma bset_at_single d s t oc o : fout s t = Some oc -> bset_at (S d) s t o = (s, RRaise E_ALREADY).
+Proof.
+  intros F. cbn [bset_at]. destruct t as [|i]; cbn [bset_level].
+  - destruct (bset0_spec (bset_at d) (bset_at_wb d) s o) as (_ & _ & _ & C). eapply C. exact F.
+  - destruct (iset_spec (bset_at d) (bset_at_wb d) s i o) as (_ & _ & _ & C). eapply C. exact F.
+Qed.
+
+Lemma bset_single s t oc o : fout s t = Some oc -> bset s t o = (s, RRaise E_ALREADY).
+Proof. apply bset_at_single. Qed.
+
+(* a set on an existing uncomputed future: it holds exactly that outcome afterwards and the call
+   returns normally - whatever the callbacks do meanwhile, to whichever future *)
+Lemma bset_completes s t o : fout s t = None -> fexists s t = true ->
+  fout (fst (bset s t o)) t = Some o /\ snd (bset s t o) = RUnit.
+Proof.
+  intros F X. unfold bset. cbn [bset_at]. set (r := bset_at (depth_of s)).
+  assert (Wr : wb r) by apply bset_at_wb.
+  destruct t as [|i]; cbn [bset_level].
+  - destruct (bset0_spec r Wr s o) as (_ & _ & N & _). destruct (N F) as (A & _ & B). auto.
+  - destruct (iset_spec r Wr s i o) as (_ & _ & N & _). cbn in X. apply Nat.ltb_lt in X.
+    destruct (N F X) as (A & B). auto.
+Qed.
+
+(* THE per-call statement: between the state before a set and the state after it, EVERY future of the
+   case satisfies C10 - computed ones untouched, uncomputed ones untouched or completed once with
+   exactly their subscribers of before notified once each, in order, with the outcome they hold -
+   and "batch computed => all items computed" is preserved *)
+Lemma bset_ext s t o :
+  ext s (fst (bset s t o)) /\ (all_items_computed s -> all_items_computed (fst (bset s t o))).
+Proof. apply (bset_at_wb (S (depth_of s))). Qed.
+
+(* completing the batch: afterwards every item is computed - the ones a callback (of a sibling, or the
+   _cancel() override) completed meanwhile KEEP that outcome: the loop re-checks before each set *)
+Lemma bset_batch_all_items s o : bout s = None -> allcomp (fst (bset s 0 o)).
+Proof.
+  intros F. unfold bset. cbn [bset_at bset_level].
+  destruct (bset0_spec (bset_at (depth_of s)) (bset_at_wb _) s o) as (_ & _ & N & _).
+  destruct (N F) as (_ & A & _). exact A.
+Qed.
+
+Lemma fill_loop_keeps d e n i s j oc :
+  (i + n <= length (bitems s))%nat -> item_out s j = Some oc ->
+  item_out (fill_loop (bset_at d) i n e s) j = Some oc.
+Proof.
+  intros H F. destruct (fill_loop_spec (bset_at d) (bset_at_wb d) e n i s H) as (E & _).
+  apply (ext_computed _ _ (S j) oc E). exact F.
+Qed.
+
+(* ---- top-level operations ---- *)
+Definition is_subscribe (o : bop) : bool :=
+  match o with BOn _ (OSubscribe _ _) => true | _ => false end.
+
+Lemma bcompute_top_spec s : all_items_computed s ->
+  let s' := bcompute_top s in
+  (forall u, ext_at s s' u) /\ bout s' <> None /\ allcomp s' /\ bruns s' = S (bruns s) /\
+  length (bitems s') = length (bitems s).
+Proof. apply bcompute_spec, bset_at_wb. Qed.
+
+(* one operation that is not a subscription: C10 for every future of the case; "batch computed =>
+   all items computed"; _flush ran at most once more *)
+Definition step_ok (s s' : bstate) : Prop :=
+  all_items_computed s' /\ (forall u, ext_at s s' u) /\ (bruns s' <= S (bruns s))%nat.
+
+Lemma bstep_spec s o : all_items_computed s -> is_subscribe o = false -> step_ok s (fst (bstep s o)).
+Proof.
+  intros I NS.
+  assert (R : step_ok s s) by (split; [exact I|split; [intros u; apply ext_at_refl|lia]]).
+  assert (CT : step_ok s (bcompute_top s)).
+  { destruct (bcompute_top_spec s I) as (E & _ & A & Rn & _). split; [right; exact A|]. split; [exact E|]. lia. }
+  assert (BS : forall t oc, step_ok s (fst (bset s t oc))).
+  { intros t oc. destruct (bset_ext s t oc) as (((L & Rn) & E) & I2). split; [auto|]. split; [exact E|]. rewrite Rn. lia. }
+  assert (BR : forall rep, step_ok s (fst (bread s rep))).
+  { intros rep. unfold bread. destruct (bout s); cbn [fst]; auto. }
+  assert (IR : forall i rep, step_ok s (fst (iread s i rep))).
+  { intros i rep. unfold iread. destruct (item_out s i); cbn [fst]; auto. destruct (bout s); cbn [fst]; auto. }
+  destruct o as [t x| |]; cbn [bstep].
+  - destruct x; try discriminate NS; destruct t as [|i]; cbn [fst]; auto.
+  - destruct (bout s); cbn [fst]; auto.
+  - destruct (bout s); cbn [fst]; auto.
+Qed.
+
+(* a subscription only appends the new subscriber to that future's list *)
+Lemma bstep_subscribe s t id k : all_items_computed s ->
+  let s' := fst (bstep s (BOn t (OSubscribe id k))) in
+  all_items_computed s' /\ (s' = s \/ s' = set_fsubs s t (fsubs s t ++ [(id, k)])).
+Proof.
+  intros I. destruct (set_fsubs_step s t (fsubs s t ++ [(id, k)])) as (_ & _ & X).
+  destruct t; cbn [bstep]; match goal with |- context [fexists s ?t] => destruct (fexists s t) end; cbn [fst]; auto.
 Qed.
 
 Lemma bstep_inv s o : all_items_computed s -> all_items_computed (fst (bstep s o)).
 Proof.
-  intros I. destruct (bout s) as [oc|] eqn:H.
-  - pose proof (bstep_computed s oc o H) as C. destruct (bstep s o) as [s' r]. cbn.
-    destruct C as (_ & C2 & _). intros _. rewrite C2. apply I. congruence.
-  - destruct (bstep_uncomputed s o H) as [(N & _) | (mid & oc & _ & _ & _ & A & _)].
-    + intros X. now contradiction X.
-    + intros _. exact A.
+  intros I. destruct (is_subscribe o) eqn:S.
+  - destruct o as [t [| | | | | | |id k]| |]; try discriminate S. apply bstep_subscribe, I.
+  - apply bstep_spec; auto.
 Qed.
 
-(* reads of a computed item report its outcome and change nothing *)
-Lemma item_read_reports s i oc : item_out s i = Some oc ->
-  bstep s (BOn (S i) OValue) = (s, report_value oc) /\ bstep s (BOn (S i) OCall) = (s, report_value oc) /\
-  bstep s (BOn (S i) OError) = (s, report_error oc) /\ bstep s (BOn (S i) OIsComputed) = (s, RBool true).
-Proof. intros H. cbn. unfold iread. rewrite H. auto. Qed.
+Lemma binit_inv its fin cs : all_items_computed (binit its fin cs).
+Proof. left. reflexivity. Qed.
+
+(* every reachable state: batch computed => all items computed *)
+Lemma brun_inv ops : forall s, all_items_computed s -> all_items_computed (fst (brun s ops)).
+Proof.
+  induction ops as [|o ops IH]; intros s I; cbn [brun]; auto.
+  pose proof (bstep_inv s o I) as I1. destruct (bstep s o) as [s1 r]. cbn [fst] in I1.
+  specialize (IH s1 I1). destruct (brun s1 ops) as [s2 rs]. exact IH.
+Qed.
+
+Lemma brun_init_inv ops its fin cs : all_items_computed (fst (brun (binit its fin cs) ops)).
+Proof. exact (brun_inv ops _ (binit_inv its fin cs)). Qed.
+
+(* reads report the stored outcome *)
+Lemma bread_reports s rep oc : bout (fst (bread s rep)) = Some oc -> snd (bread s rep) = rep oc.
+Proof. unfold bread. destruct (bout s) eqn:B; cbn [fst snd]; intros H; rewrite ?H; congruence. Qed.
+
+Lemma iread_reports s i rep oc : item_out (fst (iread s i rep)) i = Some oc -> snd (iread s i rep) = rep oc.
+Proof.
+  unfold iread. destruct (item_out s i) eqn:F; cbn [fst snd]; [congruence|].
+  destruct (bout s); cbn [fst snd]; intros H; [congruence|now rewrite H].
+Qed.
+
+(* a computing read of the batch or of an item leaves the batch and every item computed *)
+Lemma read_completes s : all_items_computed s -> bout s = None ->
+  bout (bcompute_top s) <> None /\ allcomp (bcompute_top s).
+Proof. intros I _. destruct (bcompute_top_spec s I) as (_ & A & B & _). auto. Qed.
+
+(* a computed batch (hence all items computed): no operation changes anything but subscription lists;
+   setters raise FutureIsAlreadyComputed, flush raises BatchingError, cancel does nothing *)
+Lemma bstep_all_computed s oc o : bout s = Some oc -> allcomp s -> is_subscribe o = false ->
+  fst (bstep s o) = s.
+Proof.
+  intros B A NS.
+  assert (F : forall t, fexists s t = true -> fout s t <> None).
+  { intros [|i] X; cbn in *; [congruence|]. apply A, Nat.ltb_lt, X. }
+  assert (BS : forall t o', fst (bset s t o') = s).
+  { intros t o'. destruct (fout s t) eqn:E; [now rewrite (bset_single s t _ o' E)|].
+    destruct (fexists s t) eqn:X; [now apply F in X|].
+    destruct t as [|i]; [discriminate X|]. unfold bset. cbn [bset_at bset_level]. unfold iset.
+    cbn [fout] in E. rewrite E. cbn [fexists] in X. rewrite X. reflexivity. }
+  destruct o as [t x| |]; cbn [bstep]; [|now rewrite B|now rewrite B].
+  destruct x; try discriminate NS; destruct t as [|i]; cbn [fst]; auto; unfold bread, iread; rewrite ?B; auto;
+    destruct (item_out s i); auto.
+Qed.
+
+(* ---- state morphisms: relabelling that the model cannot see ----
+   [F] maps states, [K] maps behaviour scripts (G = K on every subscriber of a list); whatever [F]
+   and [K] are, if they commute with the primitive state changes then they commute with every
+   operation - used twice below: the Exception classes subscribers raise, the class the flush body
+   raises *)
+Section Morphism.
+  Variable F : bstate -> bstate.
+  Variable K : cbkind -> cbkind.
+  Definition Gm (l : list sub) : list sub := map (fun sb => (fst sb, K (snd sb))) l.
+  Definition Kop (o : bop) : bop :=
+    match o with BOn t (OSubscribe id k) => BOn t (OSubscribe id (K k)) | _ => o end.
+
+  Hypothesis K_ok : K CbOk = CbOk.
+  Hypothesis K_raise : forall c, exists c', K (CbRaise c) = CbRaise c'.
+  Hypothesis K_unsub : forall x, K (CbUnsub x) = CbUnsub x.
+  Hypothesis K_sub : forall id k, K (CbSub id k) = CbSub id (K k).
+  Hypothesis K_seq : forall a b, K (CbSeq a b) = CbSeq (K a) (K b).
+  Hypothesis K_set : forall x o g, K (CbSet x o g) = CbSet x o g.
+  Hypothesis F_out : forall s t, fout (F s) t = fout s t.
+  Hypothesis F_subs : forall s t, fsubs (F s) t = Gm (fsubs s t).
+  Hypothesis F_set_fsubs : forall s t l, F (set_fsubs s t l) = set_fsubs (F s) t (Gm l).
+  Hypothesis F_store : forall s t o, F (store s t o) = store (F s) t o.
+  Hypothesis F_log : forall s r, F (add_log s r) = add_log (F s) r.
+  Hypothesis F_push : forall s r, F (push_binner s r) = push_binner (F s) r.
+  Hypothesis F_len : forall s, length (bitems (F s)) = length (bitems s).
+  Hypothesis F_cancel : forall s, bcancel (F s) = bcancel s.
+  Hypothesis F_acts : forall s, map iact (bitems (F s)) = map iact (bitems s).
+  Hypothesis F_run : forall s,
+    F (bmk (bitems s) (bfin s) (bcancel s) (bout s) (S (bruns s)) (bsubs s) (blog s) (binner s)) =
+    bmk (bitems (F s)) (bfin (F s)) (bcancel (F s)) (bout (F s)) (S (bruns (F s))) (bsubs (F s)) (blog (F s)) (binner (F s)).
+  Hypothesis F_fin : forall s,
+    match bfin (F s) with PRet _ => Ok VNone | PRaise _ e | PBase e => Err e | PDouble => Err E_ALREADY end =
+    match bfin s with PRet _ => Ok VNone | PRaise _ e | PBase e => Err e | PDouble => Err E_ALREADY end.
+
+  Lemma F_iout s i : item_out (F s) i = item_out s i.
+  Proof. exact (F_out s (S i)). Qed.
+  Lemma F_bout s : bout (F s) = bout s.
+  Proof. exact (F_out s 0). Qed.
+
+  Lemma Gm_remove x l : remove_first x (Gm l) = option_map Gm (remove_first x l).
+  Proof.
+    induction l as [|[i k] r IH]; cbn; auto. destruct (Z.eqb i x); auto.
+    unfold Gm in IH. rewrite IH. destruct (remove_first x r); auto.
+  Qed.
+
+  Definition commutes (rec : bstate -> nat -> outcome -> bstate * res) : Prop :=
+    forall s t o, rec (F s) t o = (F (fst (rec s t o)), snd (rec s t o)).
+
+  Section WithRec.
+    Variable rec : bstate -> nat -> outcome -> bstate * res.
+    Hypothesis C : commutes rec.
+
+    Lemma run_bcb_F t k : forall s,
+      run_bcb rec t (K k) (F s) = (F (fst (run_bcb rec t k s)), snd (run_bcb rec t k s)).
+    Proof.
+      induction k as [|c|x|id k IH|a IHa b IHb|x o g]; intros s.
+      - rewrite K_ok. reflexivity.
+      - destruct (K_raise c) as (c' & ->). reflexivity.
+      - rewrite K_unsub. cbn [run_bcb]. rewrite F_subs, Gm_remove.
+        destruct (remove_first x (fsubs s t)); cbn; [now rewrite F_set_fsubs|reflexivity].
+      - rewrite K_sub. cbn [run_bcb fst snd]. rewrite F_subs, F_set_fsubs. unfold Gm. rewrite map_app. reflexivity.
+      - rewrite K_seq. cbn [run_bcb]. rewrite IHa. destruct (run_bcb rec t a s) as [s1 r]. cbn [fst snd].
+        destruct r; auto.
+      - rewrite K_set. cbn [run_bcb]. rewrite F_out. destruct (fout s (Z.to_nat x)); auto.
+        rewrite C. destruct (rec s (Z.to_nat x) o) as [s' r]. reflexivity.
+    Qed.
+
+    Lemma bnotify_F t o snap : forall s, bnotify rec t o (Gm snap) (F s) = F (bnotify rec t o snap s).
+    Proof.
+      induction snap as [|sb rest IH]; intros s; cbn [bnotify Gm map]; auto.
+      cbn [fst snd]. rewrite <- F_log, run_bcb_F. cbn [fst]. apply IH.
+    Qed.
+
+    Lemma iset_F s i o : iset rec (F s) i o = (F (fst (iset rec s i o)), snd (iset rec s i o)).
+    Proof.
+      unfold iset. rewrite F_iout, F_len. destruct (item_out s i); auto.
+      destruct (Nat.ltb i (length (bitems s))); auto. cbn [fst snd].
+      rewrite <- F_store, F_subs, bnotify_F. reflexivity.
+    Qed.
+
+    Lemma cancel_sets_F l : forall s, cancel_sets rec l (F s) = F (cancel_sets rec l s).
+    Proof.
+      induction l as [|[i o] r IH]; intros s; cbn [cancel_sets]; auto.
+      rewrite F_iout. destruct (item_out s i); [apply IH|]. rewrite iset_F. cbn [fst]. apply IH.
+    Qed.
+
+    Lemma fill_loop_F e n : forall i s, fill_loop rec i n e (F s) = F (fill_loop rec i n e s).
+    Proof.
+      induction n as [|n IH]; intros i s; cbn [fill_loop]; auto.
+      rewrite F_iout. destruct (item_out s i); [apply IH|]. rewrite iset_F. cbn [fst]. apply IH.
+    Qed.
+
+    Lemma bset0_F s o : bset0 rec (F s) o = (F (fst (bset0 rec s o)), snd (bset0 rec s o)).
+    Proof.
+      unfold bset0. rewrite F_bout. destruct (bout s); auto. cbn [fst snd].
+      rewrite <- F_store.
+      assert (E : match o with Err _ => cancel_sets rec (bcancel (F (store s 0 o))) (F (store s 0 o)) | Ok _ => F (store s 0 o) end
+                  = F (match o with Err _ => cancel_sets rec (bcancel (store s 0 o)) (store s 0 o) | Ok _ => store s 0 o end)).
+      { destruct o; auto. rewrite F_cancel. apply cancel_sets_F. }
+      rewrite E, F_len, fill_loop_F.
+      match goal with |- (bnotify rec 0 o (bsubs (F ?x)) _, _) = _ =>
+        change (bsubs (F x)) with (fsubs (F x) 0); rewrite F_subs end.
+      rewrite bnotify_F. reflexivity.
+    Qed.
+
+    Lemma bset_level_F : commutes (bset_level rec).
+    Proof. intros s [|i] o; cbn [bset_level]; [apply bset0_F|apply iset_F]. Qed.
+
+    Lemma body_item_F i os : forall s,
+      body_item rec i os (F s) = (F (fst (body_item rec i os s)), snd (body_item rec i os s)).
+    Proof.
+      induction os as [|o r IH]; intros s; cbn [body_item]; auto.
+      rewrite iset_F. destruct (iset rec s i o) as [s1 x]. cbn [fst snd].
+      destruct x; rewrite <- ?F_push; auto.
+    Qed.
+
+    Lemma flush_body_F acts : forall i s,
+      flush_body rec i acts (F s) = (F (fst (flush_body rec i acts s)), snd (flush_body rec i acts s)).
+    Proof.
+      induction acts as [|os r IH]; intros i s; cbn [flush_body]; auto.
+      rewrite body_item_F. destruct (body_item rec i os s) as [s1 f]. cbn [fst snd]. destruct f; auto.
+    Qed.
+
+    Lemma bcompute_F s : bcompute rec (F s) = F (bcompute rec s).
+    Proof.
+      unfold bcompute. rewrite <- F_run. cbn [bitems]. rewrite F_acts. cbn [bitems].
+      rewrite flush_body_F. rewrite F_fin.
+      destruct (flush_body rec 0 (map iact (bitems s)) _) as [s1 f]. cbn [fst snd].
+      rewrite bset0_F. reflexivity.
+    Qed.
+  End WithRec.
+
+  Lemma bset_at_F d : commutes (bset_at d).
+  Proof. induction d; cbn [bset_at]; apply bset_level_F; [intros s t o; reflexivity|exact IHd]. Qed.
+
+  Lemma depth_F s : depth_of (F s) = depth_of s.
+  Proof. unfold depth_of. now rewrite F_len. Qed.
+
+  Lemma bset_F s t o : bset (F s) t o = (F (fst (bset s t o)), snd (bset s t o)).
+  Proof. unfold bset. rewrite depth_F. apply bset_at_F. Qed.
+
+  Lemma bcompute_top_F s : bcompute_top (F s) = F (bcompute_top s).
+  Proof. unfold bcompute_top. rewrite depth_F. apply bcompute_F, bset_at_F. Qed.
+
+  Lemma fexists_F s t : fexists (F s) t = fexists s t.
+  Proof. destruct t; cbn; auto. now rewrite F_len. Qed.
+
+  Lemma bstep_F s o : bstep (F s) (Kop o) = (F (fst (bstep s o)), snd (bstep s o)).
+  Proof.
+    destruct o as [t x| |]; cbn [Kop].
+    - destruct x; destruct t as [|i]; cbn [bstep]; unfold bread, iread;
+        rewrite ?F_bout, ?F_iout, ?F_out, ?bset_F, ?fexists_F; auto;
+        try (destruct (bout s); auto; rewrite bcompute_top_F, ?F_bout; reflexivity);
+        try (destruct (item_out s i); auto; destruct (bout s); auto; rewrite bcompute_top_F, ?F_iout; reflexivity).
+      + cbn [fexists fst snd]. rewrite F_subs, F_set_fsubs. unfold Gm. rewrite map_app. reflexivity.
+      + destruct (fexists s (S i)); auto. cbn [fst snd]. rewrite F_subs, F_set_fsubs. unfold Gm. rewrite map_app. reflexivity.
+    - cbn [bstep]. rewrite F_bout. destruct (bout s); auto. now rewrite bcompute_top_F.
+    - cbn [bstep]. rewrite F_bout. destruct (bout s); auto. now rewrite bset_F.
+  Qed.
+
+  Lemma brun_F ops : forall s,
+    brun (F s) (map Kop ops) = (F (fst (brun s ops)), snd (brun s ops)).
+  Proof.
+    induction ops as [|o ops IH]; intros s; cbn [brun map]; auto.
+    rewrite bstep_F. destruct (bstep s o) as [s1 r]. cbn [fst snd]. rewrite IH.
+    destruct (brun s1 ops) as [s2 rs]. reflexivity.
+  Qed.
+End Morphism.
+
+Lemma map_upd_nth (g : item -> item) (h h' : item -> item) i :
+  (forall x, g (h x) = h' (g x)) -> forall l, map g (upd_nth i h l) = upd_nth i h' (map g l).
+Proof.
+  intros H. induction i; intros [|x r]; cbn; auto; [now rewrite H|now rewrite IHi].
+Qed.
 
 (* ---- the CLASS of the Exception a subscriber raises does not matter ---- *)
 Definition recls_item (f : xcls -> xcls) (it : item) : item :=
   imk (iout it) (map (recls_sub f) (isubs it)) (iact it).
 Definition recls_bstate (f : xcls -> xcls) (s : bstate) : bstate :=
-  bmk (map (recls_item f) (bitems s)) (bfin s) (bout s) (bruns s) (map (recls_sub f) (bsubs s)) (blog s) (binner s).
-Definition recls_bop (f : xcls -> xcls) (o : bop) : bop :=
-  match o with BOn t x => BOn t (recls_op f x) | _ => o end.
+  bmk (map (recls_item f) (bitems s)) (bfin s) (bcancel s) (bout s) (bruns s)
+      (map (recls_sub f) (bsubs s)) (blog s) (binner s).
+Definition recls_bop (f : xcls -> xcls) (o : bop) : bop := Kop (recls f) o.
 Definition recls_ispec (f : xcls -> xcls) (sp : ispec) : ispec := (map (recls_sub f) (fst sp), snd sp).
 
-Lemma icomplete_recls f t it o :
-  icomplete t (recls_item f it) o = (recls_item f (fst (icomplete t it o)), snd (icomplete t it o)).
-Proof. unfold icomplete, recls_item. cbn. rewrite notify_recls. reflexivity. Qed.
-
-Lemma iset_recls f t it o :
-  iset t (recls_item f it) o =
-  (recls_item f (fst (fst (iset t it o))), snd (fst (iset t it o)), snd (iset t it o)).
-Proof.
-  unfold iset. change (iout (recls_item f it)) with (iout it). destruct (iout it); auto.
-  rewrite icomplete_recls. reflexivity.
-Qed.
-
-Lemma iset_all_recls f t os : forall it,
-  iset_all t (recls_item f it) os =
-  (let '(it', lg, rs, x) := iset_all t it os in (recls_item f it', lg, rs, x)).
-Proof.
-  induction os as [|o os IH]; intros it; cbn [iset_all]; auto.
-  rewrite iset_recls. destruct (iset t it o) as [[it1 l1] r1]. cbn [fst snd].
-  destruct r1; auto; rewrite IH; destruct (iset_all t it1 os) as [[[it2 l2] rs] x]; reflexivity.
-Qed.
-
-Lemma flush_body_recls f l : forall t,
-  flush_body t (map (recls_item f) l) =
-  (let '(l', lg, rs, x) := flush_body t l in (map (recls_item f) l', lg, rs, x)).
-Proof.
-  induction l as [|it r IH]; intros t; cbn [flush_body map]; auto.
-  change (iact (recls_item f it)) with (iact it). rewrite iset_all_recls.
-  destruct (iset_all t it (iact it)) as [[[it1 l1] rs1] f1]. destruct f1; auto.
-  rewrite IH. destruct (flush_body (t + 1) r) as [[[r' l2] rs2] f2]. reflexivity.
-Qed.
-
-Lemma fill_recls f e l : forall t,
-  fill t (map (recls_item f) l) e = (map (recls_item f) (fst (fill t l e)), snd (fill t l e)).
-Proof.
-  induction l as [|it r IH]; intros t; cbn [fill map]; auto.
-  rewrite IH. destruct (fill (t + 1) r e) as [r' lg]. cbn [fst snd].
-  change (iout (recls_item f it)) with (iout it). destruct (iout it); auto.
-  rewrite icomplete_recls. reflexivity.
-Qed.
-
-Lemma bcomplete_recls f s o : bcomplete (recls_bstate f s) o = recls_bstate f (bcomplete s o).
-Proof.
-  unfold bcomplete. cbn [bitems recls_bstate]. rewrite fill_recls.
-  destruct (fill 1 (bitems s) (fill_error o)) as [its lg]. cbn [fst snd].
-  unfold recls_bstate. cbn. rewrite notify_recls. reflexivity.
-Qed.
-
-Lemma bcompute_recls f s : bcompute (recls_bstate f s) = recls_bstate f (bcompute s).
-Proof.
-  unfold bcompute. cbn [bitems recls_bstate]. rewrite flush_body_recls.
-  destruct (flush_body 1 (bitems s)) as [[[its lg] rs] x].
-  match goal with |- bcomplete ?a ?o = recls_bstate f (bcomplete ?b ?o') =>
-    change a with (recls_bstate f b); change o with o' end.
-  apply bcomplete_recls.
-Qed.
-
-Lemma item_out_recls f s i : item_out (recls_bstate f s) i = item_out s i.
-Proof.
-  unfold item_out. cbn. rewrite nth_error_map. destruct (nth_error (bitems s) i); reflexivity.
-Qed.
-
-Lemma bstep_recls f s o :
-  bstep (recls_bstate f s) (recls_bop f o) = (recls_bstate f (fst (bstep s o)), snd (bstep s o)).
-Proof.
-  destruct o as [[|i] x| |]; cbn [recls_bop].
-  - destruct x; cbn [bstep recls_op]; unfold bread; change (bout (recls_bstate f s)) with (bout s);
-      try (destruct (bout s); rewrite ?bcompute_recls, ?bcomplete_recls; reflexivity).
-    unfold recls_bstate. cbn. rewrite map_app. reflexivity.
-  - destruct x; cbn [bstep recls_op]; unfold iread; rewrite ?item_out_recls;
-      change (bout (recls_bstate f s)) with (bout s);
-      try reflexivity;
-      destruct (item_out s i); try reflexivity; destruct (bout s); try reflexivity;
-      rewrite bcompute_recls, item_out_recls; reflexivity.
-  - cbn. change (bout (recls_bstate f s)) with (bout s). destruct (bout s); auto.
-    now rewrite bcompute_recls.
-  - cbn. change (bout (recls_bstate f s)) with (bout s). destruct (bout s); auto.
-    now rewrite bcomplete_recls.
-Qed.
-
-Lemma brun_recls f ops : forall s,
+Lemma brun_recls f ops s :
   brun (recls_bstate f s) (map (recls_bop f) ops) = (recls_bstate f (fst (brun s ops)), snd (brun s ops)).
 Proof.
-  induction ops as [|o ops IH]; intros s; cbn [brun map]; auto.
-  rewrite bstep_recls. destruct (bstep s o) as [s1 r]. cbn [fst snd]. rewrite IH.
-  destruct (brun s1 ops) as [s2 rs]. reflexivity.
+  apply (brun_F (recls_bstate f) (recls f)); try reflexivity.
+  - intros c. eexists. reflexivity.
+  - intros s0 [|i]; cbn; auto. unfold item_out. cbn. rewrite nth_error_map.
+    destruct (nth_error (bitems s0) i); reflexivity.
+  - intros s0 [|i]; cbn; auto. rewrite nth_error_map. destruct (nth_error (bitems s0) i); reflexivity.
+  - intros s0 [|i] l; cbn; auto. unfold recls_bstate, with_items. cbn. f_equal. apply map_upd_nth. reflexivity.
+  - intros s0 [|i] o; cbn; auto. unfold recls_bstate, with_items. cbn. f_equal. apply map_upd_nth. reflexivity.
+  - intros s0. cbn. apply map_length.
+  - intros s0. cbn. rewrite map_map. reflexivity.
 Qed.
 
-Lemma batch_raise_class_irrelevant f its fin ops :
-  run_batch (map (recls_ispec f) its) fin (map (recls_bop f) ops) = run_batch its fin ops.
+Lemma batch_raise_class_irrelevant f its fin cs ops :
+  run_batch (map (recls_ispec f) its) fin cs (map (recls_bop f) ops) = run_batch its fin cs ops.
 Proof.
   unfold run_batch.
-  assert (E : binit (map (recls_ispec f) its) fin = recls_bstate f (binit its fin)).
+  assert (E : binit (map (recls_ispec f) its) fin cs = recls_bstate f (binit its fin cs)).
   { unfold binit, recls_bstate. cbn. rewrite !map_map. reflexivity. }
-  rewrite E, brun_recls. destruct (brun (binit its fin) ops) as [s rs]. cbn.
+  rewrite E, brun_recls. destruct (brun (binit its fin cs) ops) as [s rs]. cbn.
   rewrite !map_map. cbn. f_equal. apply map_ext. intros it. cbn. now rewrite map_map.
 Qed.
 
-(* non-vacuity: item 1's subscriber asserts while the body sets it, item 2 is set afterwards, item 3
-   is forgotten and completed by the loop; the batch's subscriber is notified last *)
+(* ---- the CLASS of the Exception the flush body raises does not matter ---- *)
+Definition bpstate (f : xcls -> xcls) (s : bstate) : bstate :=
+  bmk (bitems s) (recls_pout f (bfin s)) (bcancel s) (bout s) (bruns s) (bsubs s) (blog s) (binner s).
+
+Lemma Gm_id l : Gm (fun k => k) l = l.
+Proof. unfold Gm. induction l as [|[i k] r IH]; cbn; auto. now rewrite IH. Qed.
+
+Lemma Kop_id ops : map (Kop (fun k => k)) ops = ops.
+Proof.
+  induction ops as [|o r IH]; cbn; auto. rewrite IH. f_equal.
+  destruct o as [t x| |]; auto. destruct x; reflexivity.
+Qed.
+
+Lemma brun_bpstate f ops s :
+  brun (bpstate f s) ops = (bpstate f (fst (brun s ops)), snd (brun s ops)).
+Proof.
+  rewrite <- (Kop_id ops) at 1.
+  apply (brun_F (bpstate f) (fun k => k)); try reflexivity.
+  - intros c. eexists. reflexivity.
+  - intros s0 t. rewrite Gm_id. destruct t; reflexivity.
+  - intros s0 t l. rewrite Gm_id. destruct t; reflexivity.
+  - intros s0 t o. destruct t; reflexivity.
+  - intros s0. cbn. destruct (bfin s0); reflexivity.
+Qed.
+
+Lemma batch_provider_class_irrelevant f its fin cs ops :
+  run_batch its (recls_pout f fin) cs ops = run_batch its fin cs ops.
+Proof.
+  unfold run_batch. change (binit its (recls_pout f fin) cs) with (bpstate f (binit its fin cs)).
+  rewrite brun_bpstate. destruct (brun (binit its fin cs) ops) as [s rs]. reflexivity.
+Qed.
+
+(* ---- non-vacuity ---- *)
+(* cancel() of a pending batch of three items; a guarded subscriber on item 1 completes item 2 with a
+   fallback value: item 2 keeps it, item 3 still gets the cancel error, the batch's subscriber is
+   notified once, last *)
+Example cross_cancel_nonvacuous :
+  run_batch [([(1, CbOk); (11, CbSet 2 (Ok (VInt 7)) true)], []); ([(2, CbOk)], []); ([(3, CbOk)], [])]
+            (PRet VNone) []
+            [BOn 0 (OSubscribe 20 CbOk); BCancel; BOn 3 OError; BOn 2 OValue; BOn 1 OError; BOn 0 OError]
+  = ([RUnit; RUnit; RErr E_CANCELLED; RVal (VInt 7); RErr E_CANCELLED; RErr E_CANCELLED], [],
+     [(1, 1, Err E_CANCELLED); (1, 11, Err E_CANCELLED); (2, 2, Ok (VInt 7)); (3, 3, Err E_CANCELLED);
+      (0, 20, Err E_CANCELLED)], 0, [20],
+     [(Some (Err E_CANCELLED), [1; 11]); (Some (Ok (VInt 7)), [2]); (Some (Err E_CANCELLED), [3])]).
+Proof. reflexivity. Qed.
+
+(* an item subscriber cancels the BATCH from inside the flush body: the nested completion fills the
+   remaining items, the body's next set raises FutureIsAlreadyComputed and is swallowed by _compute *)
+Example cross_batch_from_item_nonvacuous :
+  run_batch [([(1, CbSet 0 (Err 9) false)], [Ok (VInt 5)]); ([(2, CbOk)], [Ok (VInt 6)])]
+            (PRet VNone) [] [BOn 0 (OSubscribe 20 CbOk); BOn 2 OValue; BOn 0 OError]
+  = ([RUnit; RRaise 9; RErr 9], [RUnit; RRaise E_ALREADY],
+     [(1, 1, Ok (VInt 5)); (2, 2, Err 9); (0, 20, Err 9)], 1, [20],
+     [(Some (Ok (VInt 5)), [1]); (Some (Err 9), [2])]).
+Proof. reflexivity. Qed.
+
 Example batch_nonvacuous :
   run_batch [([(1, CbRaise XAssertion)], [Ok (VInt 5)]); ([(2, CbOk)], [Ok (VInt 6)]); ([(3, CbRaise XKey)], [])]
-            (PRet VNone) [BOn 0 (OSubscribe 9 CbOk); BOn 2 OValue; BOn 3 OError; BOn 0 OError; BFlush]
+            (PRet VNone) [] [BOn 0 (OSubscribe 9 CbOk); BOn 2 OValue; BOn 3 OError; BOn 0 OError; BFlush]
   = ([RUnit; RVal (VInt 6); RErr E_NOTSET; RNoError; RRaise E_BATCHING], [RUnit; RUnit],
      [(1, 1, Ok (VInt 5)); (2, 2, Ok (VInt 6)); (3, 3, Err E_NOTSET); (0, 9, Ok VNone)], 1, [9],
      [(Some (Ok (VInt 5)), [1]); (Some (Ok (VInt 6)), [2]); (Some (Err E_NOTSET), [3])]).
 Proof. reflexivity. Qed.
-
-(* ---- the CLASS of the Exception the flush body raises does not matter ---- *)
-Definition bpstate (f : xcls -> xcls) (s : bstate) : bstate :=
-  bmk (bitems s) (recls_pout f (bfin s)) (bout s) (bruns s) (bsubs s) (blog s) (binner s).
-
-Lemma bcomplete_bpstate f s o : bcomplete (bpstate f s) o = bpstate f (bcomplete s o).
-Proof.
-  unfold bcomplete. cbn [bitems bpstate]. destruct (fill 1 (bitems s) (fill_error o)). reflexivity.
-Qed.
-
-Lemma bcompute_bpstate f s : bcompute (bpstate f s) = bpstate f (bcompute s).
-Proof.
-  unfold bcompute. cbn [bitems bpstate bfin]. destruct (flush_body 1 (bitems s)) as [[[its lg] rs] x].
-  match goal with |- bcomplete ?a ?o = bpstate f (bcomplete ?b ?o') =>
-    change a with (bpstate f b); replace o with o' by (destruct x; auto; destruct (bfin s); reflexivity) end.
-  apply bcomplete_bpstate.
-Qed.
-
-Lemma bstep_bpstate f s o : bstep (bpstate f s) o = (bpstate f (fst (bstep s o)), snd (bstep s o)).
-Proof.
-  destruct o as [[|i] x| |].
-  - destruct x; cbn [bstep]; unfold bread; change (bout (bpstate f s)) with (bout s);
-      try (destruct (bout s); rewrite ?bcompute_bpstate, ?bcomplete_bpstate; reflexivity).
-  - destruct x; cbn [bstep]; unfold iread;
-      change (item_out (bpstate f s) i) with (item_out s i); change (bout (bpstate f s)) with (bout s);
-      try reflexivity;
-      destruct (item_out s i); try reflexivity; destruct (bout s); try reflexivity;
-      rewrite bcompute_bpstate; reflexivity.
-  - cbn. change (bout (bpstate f s)) with (bout s). destruct (bout s); auto. now rewrite bcompute_bpstate.
-  - cbn. change (bout (bpstate f s)) with (bout s). destruct (bout s); auto. now rewrite bcomplete_bpstate.
-Qed.
-
-Lemma brun_bpstate f ops : forall s,
-  brun (bpstate f s) ops = (bpstate f (fst (brun s ops)), snd (brun s ops)).
-Proof.
-  induction ops as [|o ops IH]; intros s; cbn [brun]; auto.
-  rewrite bstep_bpstate. destruct (bstep s o) as [s1 r]. cbn [fst snd]. rewrite IH.
-  destruct (brun s1 ops) as [s2 rs]. reflexivity.
-Qed.
-
-Lemma batch_provider_class_irrelevant f its fin ops :
-  run_batch its (recls_pout f fin) ops = run_batch its fin ops.
-Proof.
-  unfold run_batch. change (binit its (recls_pout f fin)) with (bpstate f (binit its fin)).
-  rewrite brun_bpstate. destruct (brun (binit its fin) ops) as [s rs]. reflexivity.
-Qed.
